@@ -32,7 +32,7 @@ def apply_edits(dst, edits):
         p = os.path.join(dst, rel)
         s = open(p).read()
         if s.count(old) != 1:
-            raise SystemExit("mutant edit does not apply exactly once in %s: %r (found %d)" % (rel, old[:60], s.count(old)))
+            raise ValueError("edit does not apply exactly once in %s: %r (found %d)" % (rel, old[:60], s.count(old)))
         open(p, "w").write(s.replace(old, new))
 
 
@@ -56,7 +56,12 @@ def main():
             continue
         base, dst = make_copy(m["name"])
         try:
-            apply_edits(dst, m["edits"])
+            try:
+                apply_edits(dst, m["edits"])
+            except ValueError as e:
+                bad += 1
+                print("STALE       %-40s %s" % (m["name"], e))
+                continue
             if a.benign:
                 props = m.get("props") or mutants.ALL_PROPS
                 for prop in props:
